@@ -71,7 +71,10 @@ Theorem C08_svd_shapes_cols : forall s p r, fst (fst (svd_shapes s p r)) = Nat.m
 Proof. exact svd_shapes_cols. Qed.
 Print Assumptions C08_svd_shapes_cols.
 
-(* parafac / non_negative_parafac / non_negative_parafac_hals: weights (r), factor k is I_k x r, r the validated rank *)
+(* parafac / non_negative_parafac / non_negative_parafac_hals: weights (r), factor k is I_k x r, r the validated rank.
+   DEFINITIONAL: the model of these drivers' shapes is this statement; it is tied to the code by the exact correspondence only.
+   The same holds for C08_cmtf_structure, C08_tensor_ring_als_structure, C08_parafac2_structure, C08_tucker_structure,
+   C08_tucker_fixed_structure (the TT / TT-matrix / TR theorems are inductions over the clipping recursion and the rotation). *)
 Theorem C08_parafac_structure : forall shape spec out, parafac shape spec = Ok out ->
   exists r, validate_cp_rank shape spec RRound = Ok r /\ out = [r] :: map (fun s => [s; r]) shape.
 Proof. exact parafac_structure. Qed.
@@ -87,6 +90,10 @@ Proof. exact tensor_train_exact_ranks. Qed.
 Print Assumptions C08_tensor_train_exact_ranks.
 Example C08_tensor_train_exact_ranks_ex : tensor_train [3; 4; 5] (RList [1; 2; 3; 1]) 0 = Ok [[1; 3; 2]; [2; 4; 3]; [3; 5; 1]].
 Proof. vm_compute. reflexivity. Qed.
+(* ... and the no-clipping hypothesis holds for this request *)
+Example C08_tensor_train_exact_ranks_hyp_ex : forall k, S k < length [3; 4; 5] ->
+  nth (S k) [1; 2; 3; 1] 0 <= Nat.min (nth k [1; 2; 3; 1] 0 * nth k [3; 4; 5] 0) (prod (skipn (S k) [3; 4; 5])).
+Proof. intros k Hk. simpl in Hk. destruct k as [|[|k]]; [vm_compute; lia | vm_compute; lia | lia]. Qed.
 
 (* validate_tt_rank(allow_overparametrization=False) predicts exactly the TT ranks that tensor_train achieves (after 03a63dd) *)
 Theorem C08_tensor_train_ranks_predicted : forall shape spec c cores r,
@@ -172,10 +179,16 @@ Theorem C08_tucker_fixed_old_constant_rank_partial : forall shape r fixed,
   tucker_fixed_old shape (repeat r (length shape)) fixed = tucker_fixed shape (repeat r (length shape)) fixed.
 Proof. exact tucker_fixed_constant_rank. Qed.
 Print Assumptions C08_tucker_fixed_old_constant_rank_partial.
-Theorem C08_tucker_fixed_old_trailing_partial : forall shape rank fixed k, (forall i, memb i fixed = true <-> k <= i) ->
+Theorem C08_tucker_fixed_old_trailing_partial : forall shape rank fixed k,
+  (forall i, i < length shape -> (memb i fixed = true <-> k <= i)) ->
   tucker_fixed_old shape rank fixed = tucker_fixed shape rank fixed.
 Proof. exact tucker_fixed_trailing. Qed.
 Print Assumptions C08_tucker_fixed_old_trailing_partial.
+(* the hypothesis is satisfiable (last mode of [4;5;6] fixed, k = 2) together with ranks that differ between modes *)
+Example C08_tucker_fixed_old_trailing_ex :
+  (forall i, i < length [4; 5; 6] -> (memb i [2] = true <-> 2 <= i)) /\
+  tucker_fixed_old [4; 5; 6] [2; 3; 4] [2] = Ok [[2; 3; 4]; [4; 2]; [5; 3]; [6; 4]].
+Proof. exact tucker_fixed_trailing_ex. Qed.
 Theorem C08_tucker_fixed_old_refuted :
   tucker_fixed_old [4; 5; 6] [2; 3; 4] [0] = Ok [[2; 2; 3]; [4; 2]; [5; 2]; [6; 3]] /\
   tucker_fixed [4; 5; 6] [2; 3; 4] [0] = Ok [[2; 3; 4]; [4; 2]; [5; 3]; [6; 4]].
@@ -230,6 +243,15 @@ Theorem C08_cp_unit_weights : forall (St : Type) (sweep normalise : St -> St) (U
   UnitWeights s0 -> UnitWeights (cp_run St sweep normalise false tol_set ik all_fixed n decisions s0).
 Proof. exact cp_run_unit_weights. Qed.
 Print Assumptions C08_cp_unit_weights.
+(* the same with the two facts made concrete rather than assumed: on a state (weights, factors), a sweep that only returns new
+   factors (arbitrary function upd of the current weights and factors) leaves the weights of the initialisation untouched on every
+   path; that the initialisation has weights all ones, also for a user CP tensor with non-unit weights, is C08_init_user_weights_absorbed.
+   (That the code's sweeps never assign the weights when normalize_factors is False is tied to the code by the per-run predicate
+   "weights all ones" and the trace observable "cp_normalize never applied", not proved.) *)
+Theorem C08_cp_run_keeps_weights : forall (W F : Type) (upd : W -> F -> F) (normalise : W * F -> W * F) tol_set ik all_fixed n decisions w0 f0,
+  fst (cp_run (W * F) (sweep_pair W F upd) normalise false tol_set ik all_fixed n decisions (w0, f0)) = w0.
+Proof. exact cp_run_keeps_weights. Qed.
+Print Assumptions C08_cp_run_keeps_weights.
 (* non-vacuity: a state space on which a sweep really destroys normalisation *)
 Example C08_cp_normalised_ex : forall tol_set ik all_fixed n decisions, ghost_run true tol_set ik all_fixed n decisions = true.
 Proof. exact ghost_normalised. Qed.
@@ -278,10 +300,13 @@ Print Assumptions C08_old_flow_normalised_partial.
 Theorem C08_old_flow_refuted :
   (forall tol_set decisions, ghost_run_old true tol_set InitUser false 0 decisions = false) /\
   (forall tol_set n decisions, ghost_run_old true tol_set InitUser true n decisions = false) /\
-  (forall tol_set ik n decisions, ghost_run_old true tol_set ik false (S n) ((true, false) :: decisions) = false) /\
-  ghost_run_pinned true true 2 [false; true] = false.
-Proof. exact (conj ghost_old_user_cap0 (conj ghost_old_user_all_fixed (conj ghost_old_callback_stop ghost_pinned_break))). Qed.
+  (forall tol_set ik n decisions, ghost_run_old true tol_set ik false (S n) ((true, false) :: decisions) = false).
+Proof. exact (conj ghost_old_user_cap0 (conj ghost_old_user_all_fixed ghost_old_callback_stop)). Qed.
 Print Assumptions C08_old_flow_refuted.
+(* the control flow before fe25b5c (cp_loop_pinned): convergence exit at iteration 1 of a run with cap 2 *)
+Theorem C08_before_fe25b5c_convergence_exit_refuted : ghost_run_pinned true true 2 [false; true] = false.
+Proof. exact ghost_pinned_break. Qed.
+Print Assumptions C08_before_fe25b5c_convergence_exit_refuted.
 Theorem C08_repair_changes_nothing_else : forall (St : Type) (sweep normalise : St -> St) nf tol_set ik all_fixed n decisions s0,
   no_callback_stop decisions -> ik <> InitUser ->
   cp_run St sweep normalise nf tol_set ik all_fixed n decisions s0 = cp_run_old St sweep normalise nf tol_set ik all_fixed n decisions s0.
@@ -451,3 +476,14 @@ Theorem C08_tucker_normalize_unit_columns : forall core fs j f', In f' (snd (tuc
   colnorm2 (rows f') (ent f') j = 1 \/ (forall i, (i < rows f')%nat -> ent f' i j = 0).
 Proof. exact tucker_normalize_unit_columns. Qed.
 Print Assumptions C08_tucker_normalize_unit_columns.
+
+(* initialize_cp with a user CP tensor (weights w, possibly non-unit, e.g. the result of a normalised run fed back): the weights are
+   pulled into factor k (the last factor; the last updated one in non_negative_parafac_hals with a fixed last mode) and replaced by
+   ones -- the result has weights all ones, the same factor shapes and represents the same tensor *)
+Theorem C08_init_user_weights_absorbed : forall k w fs idx r, (k < length fs)%nat -> in_bounds fs idx ->
+  cp_entry_term ones_w (absorb_at k w fs) idx r = cp_entry_term w fs idx r.
+Proof. exact init_user_weights_absorbed. Qed.
+Print Assumptions C08_init_user_weights_absorbed.
+Theorem C08_absorb_at_shapes : forall k w fs, map rows (absorb_at k w fs) = map rows fs.
+Proof. exact absorb_at_shapes. Qed.
+Print Assumptions C08_absorb_at_shapes.
